@@ -22,6 +22,17 @@ Proof.
 Qed.
 Print Assumptions C04_stream_frames_sealed.
 
+(** ... along a path with any number of transits (which copy the payload into
+    the frame for the next hop): every transit's view is exactly the sender's
+    frame payloads, all opaque, and the exit receives them unchanged. *)
+Theorem C04_stream_views_any_path : forall n pa k ctr blocks eofd o,
+  run pa k ctr blocks eofd = Some o ->
+  snd (relay n (o_frames o)) = o_frames o /\
+  length (fst (relay n (o_frames o))) = n /\
+  Forall (Forall (fun f => opaque_to_transit k f = true /\ readable f = [])) (fst (relay n (o_frames o))).
+Proof. exact stream_views_any_path. Qed.
+Print Assumptions C04_stream_views_any_path.
+
 (** ... and what is under the key is exactly the application bytes (C07): the
     key holder at the far end recovers them, for every data path of the
     current code. *)
